@@ -23,6 +23,7 @@ def judge (toks : List String) (out : List String) : String :=
     | none => "bad unparsable-op"
     | some op =>
       if !(recs op.stream).all (fun r => stepOk op.conf r.vals) then "ok"
+      else if !op.conf.cfg.live then "ok"            -- an empty MultiTrigger: not constructible from SQL, never fires
       else if !(validFast (recs op.stream) && validFast (recs (buffer op.stream))) then "ok"
       else match out with
         | "ok" :: ms =>
